@@ -97,6 +97,7 @@ type Sys struct {
 	Topo    *Topo
 	Devs    map[string]*Device
 	Plugin  *Plugin
+	PluginB *Plugin // second model (Knobs.ModelB), nil otherwise
 	Plan    *Plan
 	Inc     *Incarnation
 	Incs    []*Incarnation
@@ -169,8 +170,18 @@ func NewSys(plan *Plan) *Sys {
 	s.Topo = NewTopo(k, s.Eff)
 	s.Topo.AddNode(ctlutils.GetOnosConfigID())
 	s.Plugin = NewPlugin(k, ModelName, ModelVersion)
+	runModelB = map[string][2]string{}
+	for t, m := range plan.Knobs.ModelB {
+		runModelB[t] = m
+		if s.PluginB == nil {
+			s.PluginB = NewPlugin(k, m[0], m[1])
+			s.PluginB.Poison = PoisonValueB
+			s.PluginB.sink = s.Plugin
+		}
+	}
 	for _, t := range plan.Knobs.Targets {
-		s.Topo.AddTarget(t, ModelName, ModelVersion, plan.Knobs.Persistent[t], plan.Knobs.ValidateCaps[t])
+		typ, ver := ModelOf(t)
+		s.Topo.AddTarget(t, typ, ver, plan.Knobs.Persistent[t], plan.Knobs.ValidateCaps[t])
 		d := NewDevice(k, t, s.Eff)
 		d.Shared = plan.Knobs.SharedChannel
 		if plan.Knobs.RejectDev {
@@ -216,8 +227,15 @@ func (s *Sys) Boot() error {
 		must(err)
 		inc.cfgs, err = configuration.NewAtomixStore(inc.client)
 		must(err)
-		inc.reg = pluginregistry.NewPluginRegistry("fake-plugin:5152")
+		endpoints := []string{"fake-plugin:5152"}
+		if s.PluginB != nil {
+			endpoints = append(endpoints, "fake-plugin-b:5153")
+		}
+		inc.reg = pluginregistry.NewPluginRegistry(endpoints...)
 		inc.reg.NewClientFn(func(endpoint string) (adminapi.ModelPluginServiceClient, error) {
+			if endpoint == "fake-plugin-b:5153" {
+				return &incPlugin{Plugin: s.PluginB, inc: ctx}, nil
+			}
 			return &incPlugin{Plugin: s.Plugin, inc: ctx}, nil
 		})
 		inc.reg.Start()
@@ -564,7 +582,7 @@ func (s *Sys) fireFaults() bool {
 			due = s.Eff.N >= f.N
 		case "step":
 			due = s.K.StepN >= f.N
-		case "write", "topo":
+		case "write", "topo", "val":
 			due = true // armed immediately: the runtime / the fake topo count their calls themselves
 		case "devset":
 			due = true // armed immediately: the device counts its Sets itself
@@ -590,7 +608,7 @@ func (s *Sys) fireFaults() bool {
 		if !due {
 			continue
 		}
-		if !s.Inc.up && f.Kind != "op-unavail" && f.Kind != "op-acklost" && f.Kind != "dev-error" && f.Kind != "dev-drop" && f.Kind != "topo-unavail" && f.Kind != "topo-acklost" {
+		if !s.Inc.up && f.Kind != "op-unavail" && f.Kind != "op-acklost" && f.Kind != "dev-error" && f.Kind != "dev-drop" && f.Kind != "topo-unavail" && f.Kind != "topo-acklost" && f.Kind != "val-error" {
 			continue
 		}
 		f.fired = true
@@ -644,6 +662,11 @@ func (s *Sys) fireFaults() bool {
 				n = s.RT.Writes + 1 + f.Burst
 			}
 			s.RT.OpFaults[n] = strings.TrimPrefix(f.Kind, "op-")
+		case "val-error":
+			if s.Plugin.ErrAt == nil {
+				s.Plugin.ErrAt = map[int]bool{}
+			}
+			s.Plugin.ErrAt[f.N] = true
 		case "topo-unavail", "topo-acklost":
 			if s.Topo.Faults == nil {
 				s.Topo.Faults = map[int]string{}
@@ -721,6 +744,7 @@ func (s *Sys) Run() bool {
 		s.Healing = true
 		s.noFault = true
 		s.Topo.Faults = nil
+		s.Plugin.ErrAt = nil
 		s.K.Fair = true
 		s.K.Trace = append(s.K.Trace, "heal")
 	}
